@@ -191,6 +191,9 @@ def run(ctx):
     # the generator's types under explicit tagging (EXPLICIT / IMPLICIT TAGS, hand-written tags, legally untagged components)
     from .. import tagged
     tagged.run(ctx, 'C01', ctx.rng, ctx.n(150, 2500), impl, ['ber', 'der', 'per', 'uper', 'oer'], Gen, Opts, module_text)
+    # permitted-alphabet constraints FROM (...) against an independent reading of the permitted set
+    from .. import fromfam as _fromfam
+    _fromfam.run(ctx, 'C01', ctx.rng, ctx.n(30, 400), codecs=['ber', 'der', 'per', 'uper', 'oer'])
 
 
 WITNESSES = [
